@@ -399,7 +399,62 @@ def _run_history(case, ctx):
         ctx.sample({"start": case["start"], "ops": [o[:3] for o in case["ops"]]}, "history")
 
 
+WSTRINGS = ["", "A", "h\u00e9llo", "\u20ac", "\U0001f600", "a\U0001f600b", "\U0001f600\U00010000", "\ud7ff\ue000", "x\U0010ffff", "\uffff\U0001d11e\u0001"]
+
+
+def wstring_cases():
+    """wchar ARRAYS are UTF-16 text: a character outside the BMP is two code units (a surrogate pair), which decode to ONE
+    character and encode back to the same four bytes, whichever way the array is delimited."""
+    for text in WSTRINGS:
+        for endian in "<>!":
+            for form in ("fixed", "null", "expr", "eof", "standalone-null", "standalone-fixed"):
+                for compiled in (False, True):
+                    yield {"wstring": text, "endian": endian, "form": form, "compiled": compiled}
+
+
+def _run_wstring(case, ctx):
+    m = import_repo()
+    text, form = case["wstring"], case["form"]
+    codec = "utf-16-le" if case["endian"] == "<" else "utf-16-be"
+    enc = text.encode(codec)
+    units = len(enc) // 2
+    cs = m.cstruct(endian=case["endian"])
+    what = f"wchar text {text!r} ({units} code units, {enc.hex()}) as {form}, endian {case['endian']}, compiled={case['compiled']}"
+    if form.startswith("standalone"):
+        T = cs.wchar[None] if form == "standalone-null" else cs.wchar[units]
+        data = enc + (b"\x00\x00" if form == "standalone-null" else b"")
+        got = lib(T, data + b"\x41\x00")
+        if isinstance(got, Err) or str(got) != text:
+            raise Violation("codec:wchar-array", f"{what}: parsed {got!r}, expected {text!r}")
+        back = lib(T.dumps, got)
+        if isinstance(back, Err) or back != data:
+            raise Violation("codec:wchar-array", f"{what}: dumps gave {back!r}, expected {data.hex()}")
+    else:
+        decl = {"fixed": f"wchar s[{units}];", "null": "wchar s[];", "expr": "wchar s[n * 2 - n];", "eof": "wchar s[EOF];"}[form]
+        r = lib(cs.load, f"struct Root {{ uint8 n; {decl} {'' if form == 'eof' else 'uint8 tail;'} }};", compiled=case["compiled"])
+        if isinstance(r, Err):
+            raise Violation("codec:wchar-array", f"{what}: definition rejected: {r}", r.where)
+        data = bytes([units]) + enc + (b"\x00\x00" if form == "null" else b"") + (b"" if form == "eof" else b"\xEE")
+        s_ = io.BytesIO(data)
+        obj = lib(cs.Root, s_)
+        if isinstance(obj, Err) or str(obj.s) != text or s_.tell() != len(data) or (form != "eof" and obj.tail != 0xEE):
+            raise Violation("codec:wchar-array", f"{what}: parsed {obj if isinstance(obj, Err) else (obj.s, s_.tell())!r}, expected {text!r} and {len(data)} bytes consumed")
+        back = lib(obj.dumps)
+        if isinstance(back, Err) or back != data:
+            raise Violation("codec:wchar-array", f"{what}: dumps gave {back!r}, expected {data.hex()}")
+        built = lib(lambda: cs.Root(n=units, s=text, **({} if form == "eof" else {"tail": 0xEE})).dumps())
+        if isinstance(built, Err) or built != data:
+            raise Violation("codec:wchar-array", f"{what}: a constructed instance dumps {built!r}, expected {data.hex()}")
+    ctx.count("wstring:" + form + (":non-bmp" if any(ord(ch) > 0xFFFF for ch in text) else ":bmp"))
+    if any(ord(ch) > 0xFFFF for ch in text):
+        ctx.mark_nontrivial(case)
+        if form == "null" and case["endian"] == ">" and not case["compiled"]:
+            ctx.sample({"text": text, "bytes": enc.hex(), "form": form}, "wstring")
+
+
 def run_case(case, ctx):
+    if "wstring" in case:
+        return _run_wstring(case, ctx)
     if "ops" in case:
         return _run_history(case, ctx)
     return _run_table(case, ctx)
@@ -429,4 +484,5 @@ def stages(tier):
     return [
         EnumStage("table", table_cases(tier), shards=8 if q else 16, scope="every name of the typedef table with an expectation row x endian in {<,>,!}; exhaustive values for 8-bit" + ("" if q else " and 16-bit") + " integers, all chars, BMP code units" + (" (every 37th)" if q else " (all)")),
         HypStage("history", history_case, examples=2000 if q else 30000, shards=6 if q else 16),
+        EnumStage("wchar-strings", wstring_cases, shards=1, scope="10 texts (empty, BMP, surrogate pairs, BMP edges next to pairs) x byte order x 6 array forms (fixed / null-terminated / expression / to-end-of-stream fields, stand-alone null-terminated / fixed) x reader"),
     ]
